@@ -86,11 +86,11 @@ def gen_cases(rng, tier):
             ops = []
             for _ in range(rng.randint(3, 10)):
                 o = rng.choice(['copy', 'add', 'add', 'sub', 'sub', 'iadd', 'isub', 'isub', 'mul', 'div', 'imul', 'idiv',
-                                'neg', 'backwards', 'backwards', 'setx'])
+                                'neg', 'backwards', 'backwards', 'setx', 'copy_item', 'add_item', 'sub_item'])
                 i, j = rng.randrange(64), rng.randrange(64)
-                if o == 'copy':
+                if o in ('copy', 'copy_item'):
                     ops.append([o, i, rng.choice([None, 'mol', 'wt'])])
-                elif o in ('add', 'sub', 'iadd', 'isub'):
+                elif o in ('add', 'sub', 'iadd', 'isub', 'add_item', 'sub_item'):
                     ops.append([o, i, j])
                 elif o in ('mul', 'imul'):
                     ops.append([o, i, float(rng.choice(KS_MUL))])
@@ -160,6 +160,12 @@ def apply_op(store, op):
     i = op[1] % n
     if name == 'copy':
         return ['copy', i, op[2]], store[i].copy(op[2])
+    if name == 'copy_item':      # the same reaction seen as an item of a one-member reaction set
+        return ['copy', i, op[2]], item_of(store[i]).copy(op[2])
+    if name in ('add_item', 'sub_item'):
+        j = op[2] % n
+        a, b = store[i], item_of(store[j])
+        return [name[:3], i, j], (a + b if name == 'add_item' else a - b)
     if name in ('add', 'sub', 'iadd', 'isub'):
         j = op[2] % n
         a, b = store[i], store[j]
@@ -186,8 +192,13 @@ def apply_op(store, op):
         store[i].X = op[2]; return [name, i, op[2]], None
     raise ValueError(name)
 
+def item_of(r):
+    return env()['tmo'].ParallelReaction([r])[0]
+
 def resolved_only(store, op):
     name = op[0]; n = len(store); i = op[1] % n
+    if name == 'copy_item': return ['copy', i, op[2]]
+    if name in ('add_item', 'sub_item'): return [name[:3], i, op[2] % n]
     if name in ('add', 'sub', 'iadd', 'isub'): return [name, i, op[2] % n]
     if name == 'backwards':
         return [name, i, None if op[2] is None else resolve_reactant(store[i], op[2]), op[3]]
